@@ -928,20 +928,27 @@ func (schema *Schema) Validate(ctx context.Context, opts ...ValidationOption) er
 // reachesItselfByComposition reports whether the schema is one of its own oneOf/anyOf/allOf/not
 // descendants. Checking a value against such a schema re-enters the schema with the same value
 // and never ends.
-func (schema *Schema) reachesItselfByComposition(path []*Schema) bool {
+//
+// cleared holds the schemas already found to lead to no such cycle: a schema shared by many
+// compositions (a diamond) is walked once, not once per way of reaching it.
+func (schema *Schema) reachesItselfByComposition(path []*Schema, cleared map[*Schema]struct{}) bool {
 	for _, ancestor := range path {
 		if ancestor == schema {
 			return true
 		}
 	}
+	if _, ok := cleared[schema]; ok {
+		return false
+	}
 	path = append(path, schema)
 	for _, refs := range []SchemaRefs{schema.OneOf, schema.AnyOf, schema.AllOf, {schema.Not}} {
 		for _, ref := range refs {
-			if ref != nil && ref.Value != nil && ref.Value.reachesItselfByComposition(path) {
+			if ref != nil && ref.Value != nil && ref.Value.reachesItselfByComposition(path, cleared) {
 				return true
 			}
 		}
 	}
+	cleared[schema] = struct{}{}
 	return false
 }
 
@@ -960,7 +967,7 @@ func (schema *Schema) validate(ctx context.Context, stack []*Schema) ([]*Schema,
 		return stack, errors.New("a property MUST NOT be marked as both readOnly and writeOnly being true")
 	}
 
-	if schema.reachesItselfByComposition(nil) {
+	if schema.reachesItselfByComposition(nil, make(map[*Schema]struct{})) {
 		return stack, errors.New("schema includes itself through oneOf, anyOf, allOf or not: no value can be checked against it")
 	}
 
